@@ -103,7 +103,7 @@ func (bc *Bytecode) fixObjects(modules *ugo.ModuleMap) error {
 				}
 				obj[item] = o
 			}
-		case *Function:
+		case *ugo.Function:
 			return fmt.Errorf("not decodable object of Function type:'%s'", obj.Name)
 		}
 	}
